@@ -21,11 +21,16 @@
 using namespace c09;
 
 // ---- tolerances in units of eps * conditioning (calibration: thorough tier, unchanged tree)
-static const double C_FRAME   = 32; // orthonormality / handedness / determinant                  (worst seen: see c09.py)
-static const double C_AXIS    = 32; // an axis of the frame vs its documented direction
-static const double C_ZAXIS   = 8;  // axes that are a plain normalisation of an argument (no cross product)
-static const double C_ORIGIN  = 4;  // origin of nextFrame / lastFrame: |o - pj| <= C eps (|pi|+|pj|)
-static const double C_NEXTDIR = 32; // nextFrame row 0 vs tj, in units of eps_FLOAT / sin(angle(ti,tj))  (acosf)
+// (worst ratio seen = full thorough tier, seed 1, 8*10^7 cases per sub-check; every bound >= 8x that)
+static const double C_FRAME      = 40;  // orthonormality / handedness / determinant: alignZ 2.8, rotWithUp 2.3, computeLocalFrame 2.7, firstFrame 4.5
+static const double C_FRAME_ROTM = 160; // the same for rotationMatrix (un-normalised quaternion -> matrix): worst seen 18.4
+static const double C_FRAME_NEXT = 128; // the same for nextFrame (setAxisAngle about a tiny cross product): worst seen 12.4
+static const double C_AXIS       = 24;  // an axis of the frame vs its documented direction: worst seen 2.24 (firstFrame binormal)
+static const double C_AXIS_ROTM  = 96;  // rotationMatrix: from -> to: worst seen 10.4
+static const double C_ZAXIS      = 12;  // axes that are a plain normalisation of an argument (no cross product): worst seen 1.37
+static const double C_ORIGIN     = 12;  // origin of nextFrame / lastFrame: |o - pj| <= C eps (|pi|+|pj|): worst seen 0.99 (nextFrame: 0, exact)
+static const double C_NEXTDIR    = 48;  // nextFrame row 0 vs tj, in units of eps_FLOAT / sin(angle(ti,tj)) (acosf): worst seen 2.9; a dot product
+                                        // rounded up to 1 (no rotation at all) can reach ~9
 
 template <class T> static LD thr () { return sqrtl ((LD) EPS<T> ()); }
 
@@ -316,11 +321,11 @@ sub_rotmatrix (Ctx& c, Local& L, uint64_t idx)
     const LD e = (LD) EPS<T> (), cond = dot (f0, t0) >= 0 ? 1 : 1 / s;
     if (!(col3_exact (m) && row3_zero (m))) c.fail (K (fn, ty) + "homogeneous_part", idx, desc);
     judge (c, L, idx, fn, ty, "orthonormal", "", F ? "rotationMatrix.float.ortho_err_over_eps_cond" : "rotationMatrix.double.ortho_err_over_eps_cond",
-           std::max (ortho_dev (m), fabsl (det3 (m) - 1)), e * cond, C_FRAME, desc);
+           std::max (ortho_dev (m), fabsl (det3 (m) - 1)), e * cond, C_FRAME_ROTM, desc);
     judge (c, L, idx, fn, ty, "right_handed", "", F ? "rotationMatrix.float.handedness_err_over_eps_cond" : "rotationMatrix.double.handedness_err_over_eps_cond", rh_dev (m),
-           e * cond, C_FRAME, desc);
+           e * cond, C_FRAME_ROTM, desc);
     judge (c, L, idx, fn, ty, "from_maps_to_to", "", F ? "rotationMatrix.float.from_to_err_over_eps_cond" : "rotationMatrix.double.from_to_err_over_eps_cond",
-           maxabs (sub (scaled (mk (fm), 1 / norm (f0)), unit (t0))), e * cond, C_AXIS, desc);
+           maxabs (sub (scaled (mk (fm), 1 / norm (f0)), unit (t0))), e * cond, C_AXIS_ROTM, desc);
     if (idx < 8) c.sample (PCN[pc], desc);
 }
 MON_SUB (ranged<sub_rotmatrix<float>>, "rotationMatrix_float", 800000, 80000000)
@@ -512,7 +517,7 @@ sub_curve (Ctx& c, Local& L, uint64_t idx)
             LD condf = chained ? 1 / s0 : 1;
             if (!col3_exact (M1)) c.fail (K (fn, ty) + "homogeneous_part", idx, desc);
             judge (c, L, idx, fn, ty, "orthonormal_right_handed", "", F ? "nextFrame.float.frame_err_over_eps_cond" : "nextFrame.double.frame_err_over_eps_cond",
-                   frame_err (M1), e * condf, C_FRAME, desc);
+                   frame_err (M1), e * condf, C_FRAME_NEXT, desc);
             // origin: pi is taken to pj
             LD po = 0;
             for (int j = 0; j < 3; ++j) po = std::max (po, fabsl ((LD) M1[3][j] - (LD) p1[j]));
